@@ -124,7 +124,8 @@ package diff
 //@     invariant fwdPath.point.Y <= fwdFrontier.Y
 //@     invariant revFrontier.X <= revPath.point.X
 //@     invariant revFrontier.Y <= revPath.point.Y
-//@     decreases _
+//@     invariant searchBudget >= 0
+//@     decreases (revFrontier.X + revFrontier.Y) - (fwdFrontier.X + fwdFrontier.Y)
 //@   loop 1
 //@     invariant fwdPath.dir == 1 && revPath.dir == 0 - 1
 //@     invariant 0 <= fwdPath.point.X && fwdPath.point.X <= revPath.point.X && revPath.point.X <= nx && 0 <= fwdPath.point.Y && fwdPath.point.Y <= revPath.point.Y && revPath.point.Y <= ny
@@ -143,7 +144,9 @@ package diff
 //@     invariant [C17] the-forward-scan-gives-up-towards-the-top-right-only-outside-the-search-window: stop1 && !stop2 ==> !(fwdFrontier.X + ((i + 1) / 2 - 1) < revPath.point.X && fwdFrontier.Y - ((i + 1) / 2 - 1) >= fwdPath.point.Y)
 //@     invariant [C17] the-forward-scan-gives-up-towards-the-bottom-left-only-outside-the-search-window: stop2 && !stop1 ==> !(fwdFrontier.Y - (0 - i / 2) < revPath.point.Y && fwdFrontier.X + (0 - i / 2) >= fwdPath.point.X)
 //@     invariant [C17] no-equal-pair-on-the-scanned-diagonal-is-overlooked: !(stop1 && stop2) ==> forall z int :: 0 - i / 2 <= z && z <= (i + 1) / 2 - 1 && fwdPath.point.X <= fwdFrontier.X + z && fwdFrontier.X + z < revPath.point.X && fwdPath.point.Y <= fwdFrontier.Y - z && fwdFrontier.Y - z < revPath.point.Y ==> !rEqual(eqRes(f, fwdFrontier.X + z, fwdFrontier.Y - z))
-//@     decreases _
+//@     invariant searchBudget >= 0
+//@     invariant (revFrontier.X + revFrontier.Y) - (fwdFrontier.X + fwdFrontier.Y) <= variant0
+//@     decreases 4 * searchBudget + 2 * (ite(stop1, 0, 1) + ite(stop2, 0, 1)) + ite(stop1 && !stop2 && i % 2 == 0, 1, 0) + ite(stop2 && !stop1 && i % 2 == 1, 1, 0)
 //@   loop 2
 //@     invariant fwdPath.dir == 1 && revPath.dir == 0 - 1
 //@     invariant 0 <= fwdPath.point.X && fwdPath.point.X <= revPath.point.X && revPath.point.X <= nx && 0 <= fwdPath.point.Y && fwdPath.point.Y <= revPath.point.Y && revPath.point.Y <= ny
@@ -154,7 +157,8 @@ package diff
 //@     invariant [C17] labelOK(addr(fwdPath), f)
 //@     invariant [C17] labelOK(addr(revPath), f)
 //@     invariant revFrontier.X <= revPath.point.X && revFrontier.Y <= revPath.point.Y
-//@     decreases _
+//@     invariant (revFrontier.X + revFrontier.Y) - (fwdFrontier.X + fwdFrontier.Y) <= variant0 && fwdPath.point.X + fwdPath.point.Y >= fwdFrontier.X + fwdFrontier.Y
+//@     decreases revPath.point.X - fwdPath.point.X
 //@   loop 3
 //@     invariant fwdPath.dir == 1 && revPath.dir == 0 - 1
 //@     invariant 0 <= fwdPath.point.X && fwdPath.point.X <= revPath.point.X && revPath.point.X <= nx && 0 <= fwdPath.point.Y && fwdPath.point.Y <= revPath.point.Y && revPath.point.Y <= ny
@@ -173,7 +177,9 @@ package diff
 //@     invariant [C17] the-reverse-scan-gives-up-towards-the-bottom-left-only-outside-the-search-window: stop1 && !stop2 ==> !(fwdPath.point.X < revFrontier.X - ((i + 1) / 2 - 1) && revFrontier.Y + ((i + 1) / 2 - 1) <= revPath.point.Y)
 //@     invariant [C17] the-reverse-scan-gives-up-towards-the-top-right-only-outside-the-search-window: stop2 && !stop1 ==> !(fwdPath.point.Y < revFrontier.Y + (0 - i / 2) && revFrontier.X - (0 - i / 2) <= revPath.point.X)
 //@     invariant [C17] no-equal-pair-on-the-scanned-diagonal-is-overlooked: !(stop1 && stop2) ==> forall z int :: 0 - i / 2 <= z && z <= (i + 1) / 2 - 1 && fwdPath.point.X < revFrontier.X - z && revFrontier.X - z <= revPath.point.X && fwdPath.point.Y < revFrontier.Y + z && revFrontier.Y + z <= revPath.point.Y ==> !rEqual(eqRes(f, revFrontier.X - z - 1, revFrontier.Y + z - 1))
-//@     decreases _
+//@     invariant searchBudget >= 0
+//@     invariant (revFrontier.X + revFrontier.Y) - (fwdFrontier.X + fwdFrontier.Y) <= variant0 - 1
+//@     decreases 4 * searchBudget + 2 * (ite(stop1, 0, 1) + ite(stop2, 0, 1)) + ite(stop1 && !stop2 && i % 2 == 0, 1, 0) + ite(stop2 && !stop1 && i % 2 == 1, 1, 0)
 //@   loop 4
 //@     invariant fwdPath.dir == 1 && revPath.dir == 0 - 1
 //@     invariant 0 <= fwdPath.point.X && fwdPath.point.X <= revPath.point.X && revPath.point.X <= nx && 0 <= fwdPath.point.Y && fwdPath.point.Y <= revPath.point.Y && revPath.point.Y <= ny
@@ -184,7 +190,8 @@ package diff
 //@     invariant [C17] labelOK(addr(fwdPath), f)
 //@     invariant [C17] labelOK(addr(revPath), f)
 //@     invariant fwdPath.point.X <= fwdFrontier.X && fwdPath.point.Y <= fwdFrontier.Y
-//@     decreases _
+//@     invariant (revFrontier.X + revFrontier.Y) - (fwdFrontier.X + fwdFrontier.Y) <= variant0 - 1 && revPath.point.X + revPath.point.Y <= revFrontier.X + revFrontier.Y
+//@     decreases revPath.point.X - fwdPath.point.X
 //@   loop 5
 //@     unfold esX(revPath.es, i + 1) == esX(revPath.es, i) + cX(revPath.es[i])
 //@     unfold esY(revPath.es, i + 1) == esY(revPath.es, i) + cY(revPath.es[i])
